@@ -195,16 +195,18 @@ theorem bItems_mono (env : VEnv) (stack : List NodeId) (n : Node) (xs : List GoV
     | some it => exact Res.bind_mono (eachItem_mono h stack it _) (fun _ => Res.le_refl _)
     | none => exact Res.le_refl _
 
-theorem bContains_mono (stack : List NodeId) (n : Node) (xs : List GoVal) (anns : Anns) :
-    bContains r stack n xs anns ⊑ bContains r' stack n xs anns := by
+theorem bContains_mono (d : Draft) (stack : List NodeId) (n : Node) (xs : List GoVal) (anns : Anns) :
+    bContains d r stack n xs anns ⊑ bContains d r' stack n xs anns := by
   unfold bContains
   cases n.contains with
   | none => exact Res.le_refl _
   | some c => exact Res.bind_mono (containsLoop_mono h stack c xs 0 anns 0) (fun _ => Res.le_refl _)
 
-theorem bUnevaluatedItems_mono (stack : List NodeId) (n : Node) (xs : List GoVal) (anns : Anns) :
-    bUnevaluatedItems r stack n xs anns ⊑ bUnevaluatedItems r' stack n xs anns := by
+theorem bUnevaluatedItems_mono (d : Draft) (stack : List NodeId) (n : Node) (xs : List GoVal) (anns : Anns) :
+    bUnevaluatedItems d r stack n xs anns ⊑ bUnevaluatedItems d r' stack n xs anns := by
   unfold bUnevaluatedItems
+  split
+  case isFalse => exact Res.le_refl _
   cases n.unevaluatedItems with
   | none => exact Res.le_refl _
   | some u =>
@@ -218,9 +220,9 @@ theorem bArray_mono (env : VEnv) (stack : List NodeId) (n : Node) (inst : GoVal)
   unfold bArray
   split
   · exact Res.bind_mono (bItems_mono h env stack n _ anns) fun a =>
-      Res.bind_mono (bContains_mono h stack n _ a) fun p =>
+      Res.bind_mono (bContains_mono h env.draft stack n _ a) fun p =>
       Res.bind_mono (Res.le_refl _) fun _ =>
-      Res.bind_mono (Res.le_refl _) fun _ => bUnevaluatedItems_mono h stack n _ p.1
+      Res.bind_mono (Res.le_refl _) fun _ => bUnevaluatedItems_mono h env.draft stack n _ p.1
   · exact Res.le_refl _
 
 /-! objects -/
@@ -313,9 +315,11 @@ theorem bDependencies_mono (env : VEnv) (stack : List NodeId) (n : Node) (inst :
   | d7 => exact Res.bind_mono (Res.le_refl _) (fun _ => depSchemasLoop_mono h stack inst kvs _ anns)
   | d2020 => exact Res.bind_mono (Res.le_refl _) (fun _ => depSchemasLoop_mono h stack inst kvs _ anns)
 
-theorem bUnevaluatedProps_mono (stack : List NodeId) (n : Node) (kvs : List (String × GoVal)) (anns : Anns) :
-    bUnevaluatedProps r stack n kvs anns ⊑ bUnevaluatedProps r' stack n kvs anns := by
+theorem bUnevaluatedProps_mono (d : Draft) (stack : List NodeId) (n : Node) (kvs : List (String × GoVal))
+    (anns : Anns) : bUnevaluatedProps d r stack n kvs anns ⊑ bUnevaluatedProps d r' stack n kvs anns := by
   unfold bUnevaluatedProps
+  split
+  case isFalse => exact Res.le_refl _
   cases n.unevaluatedProperties with
   | none => exact Res.le_refl _
   | some u =>
@@ -333,7 +337,7 @@ theorem bObject_mono (env : VEnv) (stack : List NodeId) (n : Node) (info : Optio
   · refine Res.bind_mono (bProps_mono h env stack n info _) fun ev =>
       Res.bind_mono ?_ fun _ =>
       Res.bind_mono (Res.le_refl _) fun _ =>
-      Res.bind_mono (bDependencies_mono h env stack n _ _ _) fun a => bUnevaluatedProps_mono h stack n _ a
+      Res.bind_mono (bDependencies_mono h env stack n _ _ _) fun a => bUnevaluatedProps_mono h env.draft stack n _ a
     cases n.propertyNames with
     | some pn => exact propertyNamesLoop_mono h stack pn _
     | none => exact Res.le_refl _
